@@ -137,8 +137,6 @@ impl<T: NodeProcessor + Scope> NodeVisitor<T> for ScopeVisitor {
     fn visit_local_function(statement: &mut FunctionAssignment, scope: &mut T) {
         scope.process_local_function_statement(statement);
 
-        scope.insert_local_function(statement);
-
         for r#type in statement
             .iter_mut_parameters()
             .filter_map(TypedIdentifier::mutate_type)
@@ -153,6 +151,8 @@ impl<T: NodeProcessor + Scope> NodeVisitor<T> for ScopeVisitor {
         if let Some(return_type) = statement.mutate_return_type() {
             Self::visit_function_return_type(return_type, scope);
         }
+
+        scope.insert_local_function(statement);
 
         scope.push();
         statement
@@ -173,17 +173,17 @@ impl<T: NodeProcessor + Scope> NodeVisitor<T> for ScopeVisitor {
             .iter_mut_expressions()
             .for_each(|expression| Self::visit_expression(expression, scope));
 
-        scope.push();
-        statement
-            .iter_mut_identifiers()
-            .for_each(|identifier| scope.insert(identifier.mutate_name()));
-
         for r#type in statement
             .iter_mut_identifiers()
             .filter_map(TypedIdentifier::mutate_type)
         {
             Self::visit_type(r#type, scope);
         }
+
+        scope.push();
+        statement
+            .iter_mut_identifiers()
+            .for_each(|identifier| scope.insert(identifier.mutate_name()));
 
         scope.process_scope(statement.mutate_block(), None);
 
@@ -349,8 +349,6 @@ impl<T: NodeProcessor + NodePostProcessor + Scope> NodePostVisitor<T> for ScopeP
     fn visit_local_function(statement: &mut FunctionAssignment, scope: &mut T) {
         scope.process_local_function_statement(statement);
 
-        scope.insert_local_function(statement);
-
         for r#type in statement
             .iter_mut_parameters()
             .filter_map(TypedIdentifier::mutate_type)
@@ -365,6 +363,8 @@ impl<T: NodeProcessor + NodePostProcessor + Scope> NodePostVisitor<T> for ScopeP
         if let Some(return_type) = statement.mutate_return_type() {
             Self::visit_function_return_type(return_type, scope);
         }
+
+        scope.insert_local_function(statement);
 
         scope.push();
         statement
@@ -387,17 +387,17 @@ impl<T: NodeProcessor + NodePostProcessor + Scope> NodePostVisitor<T> for ScopeP
             .iter_mut_expressions()
             .for_each(|expression| Self::visit_expression(expression, scope));
 
-        scope.push();
-        statement
-            .iter_mut_identifiers()
-            .for_each(|identifier| scope.insert(identifier.mutate_name()));
-
         for r#type in statement
             .iter_mut_identifiers()
             .filter_map(TypedIdentifier::mutate_type)
         {
             Self::visit_type(r#type, scope);
         }
+
+        scope.push();
+        statement
+            .iter_mut_identifiers()
+            .for_each(|identifier| scope.insert(identifier.mutate_name()));
 
         scope.process_scope(statement.mutate_block(), None);
 
